@@ -526,6 +526,55 @@ func c15(c *ctx) {
 		e := entries[kind][rng.Intn(len(entries[kind]))]
 		call(fmt.Sprintf("rnd/%d/%s/%s", i, kind, e.name), kind, e.name, e.f, in, opsName(ops), false, false, 0)
 	}
+	// structured boundary inputs: every control/data opcode with tiny payloads (a close frame with a
+	// 1-byte payload has no status code), and malformed heads / option lists
+	for _, op := range []int{8, 9, 10, 1, 2, 0, 3, 11} {
+		for _, pl := range [][]byte{{}, {0x03}, {0xff}, {0x03, 0xe8}, {0x03, 0xe8, 0xff}, {0x00, 0x00}, bytes.Repeat([]byte{0x80}, 125), bytes.Repeat([]byte{'a'}, 126)} {
+			for _, masked := range []bool{true, false} {
+				for _, fin := range []bool{true, false} {
+					in := vh.BuildFrame(op, fin, 0, masked, [4]byte{0, 0, 0, 0}, pl)
+					in2 := append(vh.BuildFrame(1, false, 0, masked, [4]byte{9, 8, 7, 6}, []byte("x")), in...) // the same frame as an intermediate one
+					for _, e := range entries["frames"] {
+						call(fmt.Sprintf("tiny/%d/%d/%v/%v/%s", op, len(pl), masked, fin, e.name), "frames", e.name, e.f, in, "tiny", false, false, 0)
+						call(fmt.Sprintf("tinyfrag/%d/%d/%v/%v/%s", op, len(pl), masked, fin, e.name), "frames", e.name, e.f, in2, "tinyfrag", false, false, 0)
+					}
+				}
+			}
+		}
+	}
+	okReq := "GET /x HTTP/1.1\r\nHost: h\r\nUpgrade: websocket\r\nConnection: Upgrade\r\nSec-WebSocket-Version: 13\r\nSec-WebSocket-Key: dGhlIHNhbXBsZSBub25jZQ==\r\n"
+	badLines := []string{"", ":", ": v", "NoColon", " : ", "X", "\x00: \x00", "A:" + strings.Repeat(" ", 5000), strings.Repeat("k", 5000) + ": v", "Sec-WebSocket-Key", "Sec-WebSocket-Key:",
+		"Sec-WebSocket-Protocol: ,", "Sec-WebSocket-Protocol: ,,a,,", "Sec-WebSocket-Protocol: \"", "Sec-WebSocket-Extensions: ;", "Sec-WebSocket-Extensions: a;", "Sec-WebSocket-Extensions: a; b=",
+		"Sec-WebSocket-Extensions: a; b=\"", "Sec-WebSocket-Extensions: ,;=", "Sec-WebSocket-Extensions: permessage-deflate; client_max_window_bits=", "Sec-WebSocket-Extensions: permessage-deflate; server_max_window_bits=999999999999999999999",
+		"Connection: ,", "Connection: \"upgrade", "Upgrade:", "Host:"}
+	for li, l := range badLines {
+		for _, pos := range []string{"mid", "last"} {
+			req := okReq + l + "\r\n\r\n"
+			if pos == "mid" {
+				req = "GET /x HTTP/1.1\r\n" + l + "\r\n" + okReq[len("GET /x HTTP/1.1\r\n"):] + "\r\n"
+			}
+			for _, e := range entries["request"] {
+				call(fmt.Sprintf("badline/%d/%s/%s", li, pos, e.name), "request", e.name, e.f, []byte(req), "badline", false, false, 0)
+			}
+			resp := "HTTP/1.1 101 Switching Protocols\r\nUpgrade: websocket\r\nConnection: Upgrade\r\nSec-WebSocket-Accept: " + acceptPlaceholder + "\r\n" + l + "\r\n\r\n"
+			for _, e := range entries["response"] {
+				call(fmt.Sprintf("badresp/%d/%s/%s", li, pos, e.name), "response", e.name, e.f, []byte(resp), "badline", false, false, 0)
+			}
+		}
+	}
+	for li, l := range []string{"", " ", "HTTP/1.1", "HTTP/1.1 ", "HTTP/1.1 101", "HTTP/1.1  101 x", "HTTP/ 101 x", "HTTP/1. 101 x", "HTTP/.1 101 x", "HTTP/1.1.1 101 x", " 101 x", "GET", "GET /", "GET / ", "GET  / HTTP/1.1", " / HTTP/1.1"} {
+		for _, e := range entries["response"] {
+			call(fmt.Sprintf("badstatus/%d/%s", li, e.name), "response", e.name, e.f, []byte(l+"\r\nUpgrade: websocket\r\n\r\n"), "badstatusline", false, false, 0)
+		}
+		for _, e := range entries["request"] {
+			call(fmt.Sprintf("badreqline/%d/%s", li, e.name), "request", e.name, e.f, []byte(l+"\r\nHost: h\r\n\r\n"), "badrequestline", false, false, 0)
+		}
+	}
+	for li, l := range []string{"", ",", ";", "=", "a;", "a;b", "a;b=", "a;b=\"", "a;b=\"c", "a;b=c;", "a,,", ",a", "a; b; b", "permessage-deflate;", "permessage-deflate; client_max_window_bits=;", "\"", "a b", "a;b=c d", strings.Repeat("a;", 3000)} {
+		for _, e := range entries["options"] {
+			call(fmt.Sprintf("badopt/%d/%s", li, e.name), "options", e.name, e.f, []byte(l), "badoptions", false, false, 0)
+		}
+	}
 	// extreme announced lengths at every frame entry point; header decoding must not allocate for them
 	for name, v := range extremes {
 		for _, masked := range []bool{true, false} {
